@@ -343,10 +343,22 @@ func (self *Core) runInstruction(instruction compiler.Instruction) *value.VmInte
 		}
 	case compiler.Opcode_Pow:
 		// TODO: improve performance here
-		r := (*self.pop()).(value.ValueInt).Inner
-		l := (*self.pop()).(value.ValueInt).Inner
-		res := math.Pow(float64(l), float64(r))
-		self.push(value.NewValueInt(int64(res)))
+		r := *self.pop()
+		l := *self.pop()
+
+		switch l.Kind() {
+		case value.IntValueKind:
+			lInt := l.(value.ValueInt)
+			rInt := r.(value.ValueInt)
+			res := math.Pow(float64(lInt.Inner), float64(rInt.Inner))
+			self.push(value.NewValueInt(int64(res)))
+		case value.FloatValueKind:
+			lFloat := l.(value.ValueFloat)
+			rFloat := r.(value.ValueFloat)
+			self.push(value.NewValueFloat(math.Pow(lFloat.Inner, rFloat.Inner)))
+		default:
+			panic("This value combination is unsupported")
+		}
 	case compiler.Opcode_Div:
 		r := *self.pop()
 		l := *self.pop()
